@@ -73,11 +73,7 @@ theorem in_announced_signing : InState.remoteAnnounced.included true = false ∧
     (!(InState.remoteAnnounced.included true) && InState.remoteAnnounced.hasPreimage) = false := ⟨rfl, rfl⟩
 
 theorem sorted_unique {α : Type} {key : α → Nat} {l : List α} (hs : Sorted key l) {x y : α} (hx : x ∈ l) (hy : y ∈ l)
-    (e : key x = key y) : x = y := by
-  have h1 := mem_lookup hs hx
-  have h2 := mem_lookup hs hy
-  rw [e, h2] at h1
-  injection h1 with h1; exact h1.symm
+    (e : key x = key y) : x = y := sorted_unique' hs hx hy e
 
 /-- processing any message other than a revoke_and_ack leaves the signing view unchanged -/
 theorem onMsg_signing_view {n n' : Node} {total : Nat} {m : Msg} {ok : Bool} (hok : NodeOK n)
@@ -133,6 +129,47 @@ theorem ViewA.init (va vb : Nat) : ViewA (Sys.init va vb) := by
   intro c hc
   simp [Sys.fullAB, Sys.init, full, Node.init] at hc
 
+/-- a disconnection does not change the signing view: dropped RemoteAnnounced HTLCs were not in it,
+    RemoteRemoved reverting to Committed stay in it -/
+theorem pause_signing_view {n : Node} : n.pause.buildView false true = n.buildView false true := by
+  cases hp : n.paused
+  · rw [pause_unpaused hp]
+    refine buildView_eq_of false true rfl ?_ ?_ ?_ ?_
+    · show ((n.inb.filter notRA).filter _).map _ = _
+      rw [List.filter_filter]
+      congr 1
+      apply List.filter_congr
+      intro h _
+      cases hs : h.st <;> simp [notRA, hs, InState.included]
+    · show ((n.outb.map unRR).filter _).map _ = _
+      exact proj_map_congr _ unRR _ _ (fun x _ => by rw [unRR_st]; cases x.st <;> rfl) (fun x _ => by rw [unRR_id, unRR_amt])
+    · show ((n.inb.filter notRA).filter _).map _ = _
+      rw [List.filter_filter]
+      congr 1
+      apply List.filter_congr
+      intro h _
+      cases hs : h.st <;> simp [notRA, hs, InState.included, InState.hasPreimage]
+    · show ((n.outb.map unRR).filter _).map _ = _
+      exact proj_map_congr _ unRR _ _ (fun x _ => by rw [unRR_st]; cases x.st <;> rfl) (fun x _ => unRR_amt x)
+  · rw [pause_paused hp]
+
+theorem cs_mem_lastBatch {n : Node} {c : Commit} (h : Msg.cs c ∈ n.lastBatch) : c = n.buildView false true := by
+  unfold Node.lastBatch at h
+  simp only [List.mem_append, List.mem_map, List.mem_singleton, Msg.cs.injEq] at h
+  rcases h with ((h | h) | h) | h
+  · obtain ⟨_, _, h⟩ := h; cases h
+  · obtain ⟨_, _, h⟩ := h; cases h
+  · obtain ⟨_, _, h⟩ := h; cases h
+  · exact h
+
+theorem mem_full_nil {x : Msg} {R : List Msg} {need r ow : Nat} (h : x ∈ full [] R need r ow) : x = .raa ∨ x ∈ R := by
+  unfold full at h
+  simp only [List.nil_append, List.mem_append, List.mem_replicate] at h
+  rcases h with (h | h) | h
+  · exact Or.inl h.2
+  · exact Or.inr h
+  · exact Or.inl h.2
+
 theorem cs_mem_tok {l : List Msg} {c : Commit} (h : Msg.cs c ∈ l) (id : Nat) : (l.filterMap (tokF id)).contains .cs = true := by
   simp only [List.contains_iff_mem, List.mem_filterMap]
   exact ⟨Msg.cs c, h, rfl⟩
@@ -153,78 +190,62 @@ theorem cs_mem_batch {n : Node} {adds fu fa : List Nat} {c : Commit} (h : Msg.cs
   · obtain ⟨_, _, h⟩ := h; cases h
   · exact h
 
-theorem ViewA.step {s s' : Sys} {e : Ev} (hv : ViewA s) (hg : GoodA s) (hb : Base s) (h : stepG s e = some s') :
-    ViewA s' := by
-  obtain ⟨hk, h⟩ := stepG_some h
+theorem ViewA.step {s s' : Sys} {e : Ev} (hv : ViewA s) (hg : GoodA s) (hb : Base s) (hb' : Base s.swap)
+    (h : stepG s e = some s') : ViewA s' := by
+  obtain ⟨hk, h0⟩ := stepG_some h
+  intro c hc
   cases e with
   | commit x adds fu fa =>
     cases x
-    · obtain ⟨_, n, ms, _, e⟩ := step_commit_false h
-      subst e; exact hv
-    · obtain ⟨hp, n, ms, hc, e⟩ := step_commit_true h
-      obtain ⟨haw, _, en, ems⟩ := commit_some hc
-      subst e; subst en; subst ems
-      intro c hc
-      have hfwd : ({ s with a := ({ s.a.built adds fu fa with awaitingRaa := true, csSent := s.a.csSent + 1 } : Node),
-                            pendA := batchOf s.a adds fu fa, needRaaA := s.a.raaSent + s.a.owesRaa } : Sys).fullAB
-          = s.fullAB ++ batchOf s.a adds fu fa := by
-        show full s.qab (batchOf s.a adds fu fa) (s.a.raaSent + s.a.owesRaa) s.a.raaSent s.a.owesRaa = _
-        rw [full_commit _ _ (batchOf_ne_nil _ _ _ _)]
-        unfold Sys.fullAB
-        rw [hp, full_nil_pend, full_nil_pend]
-      rw [hfwd] at hc
+    · rw [fullAB_commit_false h0] at hc
+      obtain ⟨_, _, n, ms, _, e⟩ := step_commit_false h0
+      have : s'.a = s.a := by rw [e]
+      rw [this]; exact hv c hc
+    · rw [fullAB_commit_true h0] at hc
+      obtain ⟨_, hp, n, ms, hcm, e⟩ := step_commit_true h0
+      obtain ⟨haw, _, en, _⟩ := commit_some hcm
+      have hsa : s'.a = n := by rw [e]
       rcases List.mem_append.1 hc with hc | hc
       · exfalso
         have h1 := good_no_cs _ (hg 0)
         have h2 := cs_mem_tok hc 0
         simp only [cfgA, haw, Bool.false_or, Bool.not_eq_true'] at h1
         rw [h2] at h1; cases h1
-      · exact cs_mem_batch hc
+      · rw [hsa, en]; exact cs_mem_batch hc
   | release x =>
     cases x
-    · obtain ⟨_, _, e⟩ := step_release_false h
-      subst e; exact hv
-    · obtain ⟨_, hlt, e⟩ := step_release_true h
-      subst e
-      intro c hc
-      have hf : ({ s with qab := s.qab ++ s.pendA, pendA := [] } : Sys).fullAB = s.fullAB := full_release _ _ _ _ _ hlt
-      rw [hf] at hc; exact hv c hc
+    · rw [fullAB_release_false h0] at hc
+      obtain ⟨_, _, _, e⟩ := step_release_false h0
+      have : s'.a = s.a := by rw [e]
+      rw [this]; exact hv c hc
+    · rw [fullAB_release_true h0] at hc
+      obtain ⟨_, _, _, e⟩ := step_release_true h0
+      have : s'.a = s.a := by rw [e]
+      rw [this]; exact hv c hc
   | sendRaa x =>
     cases x
-    · obtain ⟨_, e⟩ := step_sendRaa_false h
-      subst e; exact hv
-    · obtain ⟨ho, e⟩ := step_sendRaa_true h
-      subst e
-      intro c hc
-      have hgd : s.pendA = [] ∨ s.a.raaSent < s.needRaaA := by simpa [evOk] using hk
-      have hf : ({ s with a := { s.a with owesRaa := s.a.owesRaa - 1, raaSent := s.a.raaSent + 1 }, qab := s.qab ++ [Msg.raa] } : Sys).fullAB
-          = s.fullAB := full_sendRaa _ _ _ _ _ ho hgd hb.need
-      rw [hf] at hc; exact hv c hc
+    · rw [fullAB_sendRaa_false h0] at hc
+      obtain ⟨_, _, e⟩ := step_sendRaa_false h0
+      have : s'.a = s.a := by rw [e]
+      rw [this]; exact hv c hc
+    · rw [fullAB_sendRaa_true hb hk h0] at hc
+      obtain ⟨_, _, e⟩ := step_sendRaa_true h0
+      have : s'.a.buildView false true = s.a.buildView false true := by rw [e]; rfl
+      rw [this]; exact hv c hc
   | recv y =>
     cases y
-    · obtain ⟨m, rest, n, okb, hq, hm, e⟩ := step_recv_false h
-      subst e
-      intro c hc
-      have hpop : s.fullAB = m :: ({ s with b := n, qab := rest, agreed := s.agreed && okb } : Sys).fullAB := by
-        show full s.qab s.pendA s.needRaaA s.a.raaSent s.a.owesRaa = m :: full rest s.pendA s.needRaaA s.a.raaSent s.a.owesRaa
-        rw [hq, full_pop]
-      exact hv c (by rw [hpop]; exact List.mem_cons_of_mem _ hc)
-    · obtain ⟨m, rest, n, okb, hq, hm, e⟩ := step_recv_true h
-      subst e
-      intro c hc
+    · obtain ⟨m, rest, _, _, hf⟩ := fullAB_recv_false hb h0
+      obtain ⟨_, _, _, n, okb, _, _, e⟩ := step_recv_false h0
+      have : s'.a = s.a := by rw [e]
+      rw [this]; exact hv c (by rw [hf]; exact List.mem_cons_of_mem _ hc)
+    · obtain ⟨hpa, m, rest, n, okb, hq, hm, e⟩ := step_recv_true h0
+      have hsa : s'.a = n := by rw [e]
+      have hfw : s'.fullAB = s.fullAB ++ owedFor m := by rw [e]; exact fullAB_after_recv_true hb hpa _ hm
       have hsub : Msg.cs c ∈ s.fullAB := by
-        have hc' : Msg.cs c ∈ full s.qab s.pendA s.needRaaA n.raaSent n.owesRaa := hc
-        cases m with
-        | cs c' =>
-          obtain ⟨e1, e2⟩ := onMsg_sent_owes hm
-          rw [e1, e2, full_owe _ _ _ _ _ hb.need] at hc'
-          rcases List.mem_append.1 hc' with hc' | hc'
-          · exact hc'
-          · simp at hc'
-        | add _ _ => obtain ⟨e1, e2⟩ := onMsg_sent_owes hm; rw [e1, e2] at hc'; exact hc'
-        | fulfill _ => obtain ⟨e1, e2⟩ := onMsg_sent_owes hm; rw [e1, e2] at hc'; exact hc'
-        | fail _ => obtain ⟨e1, e2⟩ := onMsg_sent_owes hm; rw [e1, e2] at hc'; exact hc'
-        | raa => obtain ⟨e1, e2⟩ := onMsg_sent_owes hm; rw [e1, e2] at hc'; exact hc'
+        rw [hfw] at hc
+        rcases List.mem_append.1 hc with hc | hc
+        · exact hc
+        · cases m <;> simp [owedFor] at hc
       have hnr : m ≠ .raa := by
         intro hmr
         subst hmr
@@ -232,82 +253,80 @@ theorem ViewA.step {s s' : Sys} {e : Ev} (hv : ViewA s) (hg : GoodA s) (hb : Bas
         have h2 := cs_mem_tok hsub 0
         have h3 : (cfgA s 0).bwd.head? = some .raa := by
           show (List.filterMap (tokB 0) s.fullBA).head? = _
-          have : s.fullBA = Msg.raa :: full rest s.pendB s.needRaaB s.b.raaSent s.b.owesRaa := by
-            show full s.qba s.pendB s.needRaaB s.b.raaSent s.b.owesRaa = _
-            rw [hq, full_pop]
-          rw [this]; rfl
+          rw [fullBA_pop_recv_true hb' hq n (s.agreed && okb)]; rfl
         simp only [cfgA] at h1 h3
         rw [h2, h3] at h1
         cases h1
-      show c = n.buildView false true
-      rw [onMsg_signing_view hb.ok hm hnr]
+      rw [hsa, onMsg_signing_view hb.ok hm hnr]
       exact hv c hsub
+  | disconnect =>
+    rw [fullAB_disconnect h0] at hc
+    have e := step_disconnect h0
+    have hsa : s'.a = s.a.pause := by rw [e]
+    rw [hsa]
+    rcases mem_full_nil hc with hc | hc
+    · cases hc
+    · unfold Node.retrans at hc
+      split at hc
+      · cases hc
+      · exact cs_mem_lastBatch hc
+  | reest y =>
+    cases y
+    · rw [fullAB_reest_false h0] at hc
+      obtain ⟨n, p, _, e⟩ := step_reest_false h0
+      have : s'.a = s.a := by rw [e]
+      rw [this]; exact hv c hc
+    · rw [fullAB_reest_true hb h0] at hc
+      obtain ⟨n, p, hr, e⟩ := step_reest_true h0
+      obtain ⟨_, _, _, _, _, en, _⟩ := reestablish_some hr
+      have : s'.a.buildView false true = s.a.buildView false true := by rw [e, en]; rfl
+      rw [this]; exact hv c hc
 
 /-! ### what can enter the a→b stream -/
 
 theorem fullAB_mem_step {s s' : Sys} {e : Ev} (hb : Base s) (h : stepG s e = some s') :
-    ∀ x ∈ s'.fullAB, x ∈ s.fullAB ∨ x = .raa ∨ ∃ adds fu fa, e = .commit true adds fu fa ∧ x ∈ batchOf s.a adds fu fa := by
-  obtain ⟨hk, h⟩ := stepG_some h
+    ∀ x ∈ s'.fullAB, x ∈ s.fullAB ∨ x = .raa ∨ (∃ adds fu fa, e = .commit true adds fu fa ∧ x ∈ batchOf s.a adds fu fa)
+      ∨ (e = .disconnect ∧ x ∈ s.a.pause.lastBatch) := by
+  obtain ⟨hk, h0⟩ := stepG_some h
   intro x hx
   cases e with
   | commit y adds fu fa =>
     cases y
-    · obtain ⟨_, n, ms, _, e⟩ := step_commit_false h
-      subst e; exact Or.inl hx
-    · obtain ⟨hp, n, ms, hc, e⟩ := step_commit_true h
-      obtain ⟨haw, _, en, ems⟩ := commit_some hc
-      subst e; subst en; subst ems
-      have hfwd : ({ s with a := ({ s.a.built adds fu fa with awaitingRaa := true, csSent := s.a.csSent + 1 } : Node),
-                            pendA := batchOf s.a adds fu fa, needRaaA := s.a.raaSent + s.a.owesRaa } : Sys).fullAB
-          = s.fullAB ++ batchOf s.a adds fu fa := by
-        show full s.qab (batchOf s.a adds fu fa) (s.a.raaSent + s.a.owesRaa) s.a.raaSent s.a.owesRaa = _
-        rw [full_commit _ _ (batchOf_ne_nil _ _ _ _)]
-        unfold Sys.fullAB
-        rw [hp, full_nil_pend, full_nil_pend]
-      rw [hfwd] at hx
+    · rw [fullAB_commit_false h0] at hx; exact Or.inl hx
+    · rw [fullAB_commit_true h0] at hx
       rcases List.mem_append.1 hx with hx | hx
       · exact Or.inl hx
-      · exact Or.inr (Or.inr ⟨adds, fu, fa, rfl, hx⟩)
+      · exact Or.inr (Or.inr (Or.inl ⟨adds, fu, fa, rfl, hx⟩))
   | release y =>
     cases y
-    · obtain ⟨_, _, e⟩ := step_release_false h
-      subst e; exact Or.inl hx
-    · obtain ⟨_, hlt, e⟩ := step_release_true h
-      subst e
-      have hf : ({ s with qab := s.qab ++ s.pendA, pendA := [] } : Sys).fullAB = s.fullAB := full_release _ _ _ _ _ hlt
-      rw [hf] at hx; exact Or.inl hx
+    · rw [fullAB_release_false h0] at hx; exact Or.inl hx
+    · rw [fullAB_release_true h0] at hx; exact Or.inl hx
   | sendRaa y =>
     cases y
-    · obtain ⟨_, e⟩ := step_sendRaa_false h
-      subst e; exact Or.inl hx
-    · obtain ⟨ho, e⟩ := step_sendRaa_true h
-      subst e
-      have hgd : s.pendA = [] ∨ s.a.raaSent < s.needRaaA := by simpa [evOk] using hk
-      have hf : ({ s with a := { s.a with owesRaa := s.a.owesRaa - 1, raaSent := s.a.raaSent + 1 }, qab := s.qab ++ [Msg.raa] } : Sys).fullAB
-          = s.fullAB := full_sendRaa _ _ _ _ _ ho hgd hb.need
-      rw [hf] at hx; exact Or.inl hx
+    · rw [fullAB_sendRaa_false h0] at hx; exact Or.inl hx
+    · rw [fullAB_sendRaa_true hb hk h0] at hx; exact Or.inl hx
   | recv y =>
     cases y
-    · obtain ⟨m, rest, n, okb, hq, hm, e⟩ := step_recv_false h
-      subst e
-      have hpop : s.fullAB = m :: ({ s with b := n, qab := rest, agreed := s.agreed && okb } : Sys).fullAB := by
-        show full s.qab s.pendA s.needRaaA s.a.raaSent s.a.owesRaa = m :: full rest s.pendA s.needRaaA s.a.raaSent s.a.owesRaa
-        rw [hq, full_pop]
-      exact Or.inl (by rw [hpop]; exact List.mem_cons_of_mem _ hx)
-    · obtain ⟨m, rest, n, okb, hq, hm, e⟩ := step_recv_true h
-      subst e
-      have hx' : x ∈ full s.qab s.pendA s.needRaaA n.raaSent n.owesRaa := hx
-      cases m with
-      | cs c' =>
-        obtain ⟨e1, e2⟩ := onMsg_sent_owes hm
-        rw [e1, e2, full_owe _ _ _ _ _ hb.need] at hx'
-        rcases List.mem_append.1 hx' with hx' | hx'
-        · exact Or.inl hx'
-        · exact Or.inr (Or.inl (by simpa using hx'))
-      | add _ _ => obtain ⟨e1, e2⟩ := onMsg_sent_owes hm; rw [e1, e2] at hx'; exact Or.inl hx'
-      | fulfill _ => obtain ⟨e1, e2⟩ := onMsg_sent_owes hm; rw [e1, e2] at hx'; exact Or.inl hx'
-      | fail _ => obtain ⟨e1, e2⟩ := onMsg_sent_owes hm; rw [e1, e2] at hx'; exact Or.inl hx'
-      | raa => obtain ⟨e1, e2⟩ := onMsg_sent_owes hm; rw [e1, e2] at hx'; exact Or.inl hx'
+    · obtain ⟨m, rest, _, _, hf⟩ := fullAB_recv_false hb h0
+      exact Or.inl (by rw [hf]; exact List.mem_cons_of_mem _ hx)
+    · obtain ⟨m, rest, _, hf⟩ := fullAB_recv_true hb h0
+      rw [hf] at hx
+      rcases List.mem_append.1 hx with hx | hx
+      · exact Or.inl hx
+      · cases m <;> simp at hx
+        exact Or.inr (Or.inl hx)
+  | disconnect =>
+    rw [fullAB_disconnect h0] at hx
+    rcases mem_full_nil hx with hx | hx
+    · exact Or.inr (Or.inl hx)
+    · unfold Node.retrans at hx
+      split at hx
+      · cases hx
+      · exact Or.inr (Or.inr (Or.inr ⟨rfl, hx⟩))
+  | reest y =>
+    cases y
+    · rw [fullAB_reest_false h0] at hx; exact Or.inl hx
+    · rw [fullAB_reest_true hb h0] at hx; exact Or.inl hx
 
 /-! ### where the elements of the new lists come from -/
 
@@ -445,46 +464,87 @@ theorem Amt.init (va vb : Nat) : Amt (Sys.init va vb) := by
   · intro h hh; cases hh
   · intro id amt h; simp [Sys.fullAB, Sys.init, full, Node.init] at h
 
+theorem add_mem_lastBatch {n : Node} {id amt : Nat} (h : Msg.add id amt ∈ n.lastBatch) :
+    ∃ x ∈ n.outb, x.id = id ∧ x.amt = amt := by
+  unfold Node.lastBatch at h
+  simp only [List.mem_append, List.mem_map, List.mem_singleton] at h
+  rcases h with ((h | h) | h) | h
+  · obtain ⟨x, hx, e⟩ := h
+    injection e with e1 e2
+    exact ⟨x, (List.mem_filter.1 hx).1, e1, e2⟩
+  · obtain ⟨_, _, h⟩ := h; cases h
+  · obtain ⟨_, _, h⟩ := h; cases h
+  · cases h
+
+theorem pause_from (n : Node) :
+    (∀ h ∈ n.pause.outb, ∃ x ∈ n.outb, x.id = h.id ∧ x.amt = h.amt) ∧ (∀ h ∈ n.pause.inb, h ∈ n.inb) := by
+  cases hp : n.paused
+  · rw [pause_unpaused hp]
+    refine ⟨?_, fun h hh => (List.mem_filter.1 hh).1⟩
+    intro h hh
+    obtain ⟨x, hx, e⟩ := List.mem_map.1 hh
+    exact ⟨x, hx, by rw [← e, unRR_id], by rw [← e, unRR_amt]⟩
+  · rw [pause_paused hp]
+    exact ⟨fun h hh => ⟨h, hh, rfl, rfl⟩, fun h hh => hh⟩
+
 theorem Amt.step {s s' : Sys} {e : Ev} (ha : Amt s) (hb : Base s) (h : stepG s e = some s') : Amt s' := by
   have hmem := fullAB_mem_step hb h
-  obtain ⟨hk, h⟩ := stepG_some h
+  obtain ⟨hk, h0⟩ := stepG_some h
   have hadd : ∀ id amt, Msg.add id amt ∈ s'.fullAB → Msg.add id amt ∈ s.fullAB ∨
-      ∃ adds fu fa, e = .commit true adds fu fa ∧ Msg.add id amt ∈ mkAdds s.a.nextOutId adds := by
+      (∃ adds fu fa, e = .commit true adds fu fa ∧ Msg.add id amt ∈ mkAdds s.a.nextOutId adds) ∨
+      (e = .disconnect ∧ Msg.add id amt ∈ s.a.pause.lastBatch) := by
     intro id amt hx
-    rcases hmem _ hx with h1 | h1 | ⟨adds, fu, fa, e1, e2⟩
+    rcases hmem _ hx with h1 | h1 | ⟨adds, fu, fa, e1, e2⟩ | h1
     · exact Or.inl h1
     · cases h1
-    · exact Or.inr ⟨adds, fu, fa, e1, add_mem_batch e2⟩
+    · exact Or.inr (Or.inl ⟨adds, fu, fa, e1, add_mem_batch e2⟩)
+    · exact Or.inr (Or.inr h1)
+  -- the generic case: `a.outb`, `b.inb` only lose elements or get id/amount-preserving rewrites, nothing new in the stream
+  have generic : (∀ x ∈ s'.a.outb, ∃ y ∈ s.a.outb, y.id = x.id ∧ y.amt = x.amt) →
+      (∀ x ∈ s'.b.inb, ∃ y ∈ s.b.inb, y.id = x.id ∧ y.amt = x.amt) → s'.a.nextOutId = s.a.nextOutId →
+      (∀ id amt, Msg.add id amt ∈ s'.fullAB → Msg.add id amt ∈ s.fullAB) → Amt s' := by
+    intro h1 h2 h3 h4
+    refine ⟨?_, ?_, ?_, ?_⟩
+    · intro x hx x' hx' hid
+      obtain ⟨y, hy, e1, e2⟩ := h1 x hx
+      obtain ⟨y', hy', e1', e2'⟩ := h2 x' hx'
+      rw [← e2, ← e2']; exact ha.a1 y hy y' hy' (by omega)
+    · intro id amt hm x hx hid
+      obtain ⟨y, hy, e1, e2⟩ := h1 x hx
+      rw [← e2]; exact ha.a2 id amt (h4 id amt hm) y hy (by omega)
+    · intro x' hx'
+      obtain ⟨y', hy', e1', _⟩ := h2 x' hx'
+      rw [h3, ← e1']; exact ha.b1 y' hy'
+    · intro id amt hm
+      rw [h3]; exact ha.b2 id amt (h4 id amt hm)
+  have same : ∀ {α : Type} (l : List α) (f g : α → Nat), ∀ x ∈ l, ∃ y ∈ l, f y = f x ∧ g y = g x :=
+    fun _ _ _ x hx => ⟨x, hx, rfl, rfl⟩
   cases e with
   | commit y adds fu fa =>
     cases y
-    · obtain ⟨_, n, ms, hc, e⟩ := step_commit_false h
+    · obtain ⟨_, _, n, ms, hc, e⟩ := step_commit_false h0
       obtain ⟨_, _, en, _⟩ := commit_some hc
-      subst e; subst en
-      have hfrom := (built_from s.b adds fu fa).1
-      refine ⟨?_, ?_, ?_, ?_⟩
-      · intro x hx x' hx' hid
-        obtain ⟨y, hy, e1, e2⟩ := hfrom x' hx'
-        rw [← e2]; exact ha.a1 x hx y hy (by omega)
+      have hsa : s'.a = s.a := by rw [e]
+      have hsb : s'.b = n := by rw [e]
+      apply generic
+      · rw [hsa]; exact same _ _ _
+      · rw [hsb, en]; exact (built_from s.b adds fu fa).1
+      · rw [hsa]
       · intro id amt hm
-        rcases hadd id amt hm with h1 | ⟨_, _, _, e1, _⟩
-        · exact ha.a2 id amt h1
+        rcases hadd id amt hm with h1 | ⟨_, _, _, e1, _⟩ | ⟨e1, _⟩
+        · exact h1
         · cases e1
-      · intro x' hx'
-        obtain ⟨y, hy, e1, _⟩ := hfrom x' hx'
-        have := ha.b1 y hy
-        show x'.id < s.a.nextOutId
-        omega
-      · intro id amt hm
-        rcases hadd id amt hm with h1 | ⟨_, _, _, e1, _⟩
-        · exact ha.b2 id amt h1
         · cases e1
-    · obtain ⟨hp, n, ms, hc, e⟩ := step_commit_true h
+    · obtain ⟨_, hp, n, ms, hc, e⟩ := step_commit_true h0
       obtain ⟨haw, _, en, ems⟩ := commit_some hc
-      subst e; subst en; subst ems
-      have hfrom := (built_from s.a adds fu fa).2
+      have hsa : s'.a = n := by rw [e]
+      have hsb : s'.b = s.b := by rw [e]
+      have hfrom : ∀ x ∈ s'.a.outb, ∃ y ∈ s.a.outb ++ mkOuts s.a.nextOutId adds, y.id = x.id ∧ y.amt = x.amt := by
+        rw [hsa, en]; exact (built_from s.a adds fu fa).2
+      have hnext : s'.a.nextOutId = s.a.nextOutId + adds.length := by rw [hsa, en]; rfl
       refine ⟨?_, ?_, ?_, ?_⟩
       · intro x hx x' hx' hid
+        rw [hsb] at hx'
         obtain ⟨y, hy, e1, e2⟩ := hfrom x hx
         rcases List.mem_append.1 hy with hy | hy
         · rw [← e2]; exact ha.a1 y hy x' hx' (by omega)
@@ -493,7 +553,7 @@ theorem Amt.step {s s' : Sys} {e : Ev} (ha : Amt s) (hb : Base s) (h : stepG s e
           omega
       · intro id amt hm x hx hid
         obtain ⟨y, hy, e1, e2⟩ := hfrom x hx
-        rcases hadd id amt hm with h1 | ⟨adds', fu', fa', e3, h1⟩
+        rcases hadd id amt hm with h1 | ⟨adds', fu', fa', e3, h1⟩ | ⟨e3, _⟩
         · rcases List.mem_append.1 hy with hy | hy
           · rw [← e2]; exact ha.a2 id amt h1 y hy (by omega)
           · have := (mkOuts_lower adds _ y hy).1
@@ -506,84 +566,141 @@ theorem Amt.step {s s' : Sys} {e : Ev} (ha : Amt s) (hb : Base s) (h : stepG s e
             have := (mkAdds_lower _ _ _ _ h1).1
             omega
           · rw [← e2]; exact mkAdds_mkOuts _ _ _ _ h1 y hy (by omega)
+        · cases e3
       · intro x' hx'
+        rw [hsb] at hx'
         have := ha.b1 x' hx'
-        show x'.id < s.a.nextOutId + adds.length
-        omega
+        rw [hnext]; omega
       · intro id amt hm
-        show id < s.a.nextOutId + adds.length
-        rcases hadd id amt hm with h1 | ⟨adds', fu', fa', e3, h1⟩
+        rw [hnext]
+        rcases hadd id amt hm with h1 | ⟨adds', fu', fa', e3, h1⟩ | ⟨e3, _⟩
         · have := ha.b2 id amt h1; omega
         · injection e3 with _ e3 _ _
           subst e3
           exact (mkAdds_lower _ _ _ _ h1).2
+        · cases e3
   | release y =>
     have hadd' : ∀ id amt, Msg.add id amt ∈ s'.fullAB → Msg.add id amt ∈ s.fullAB := by
       intro id amt hm
-      rcases hadd id amt hm with h1 | ⟨_, _, _, e1, _⟩
+      rcases hadd id amt hm with h1 | ⟨_, _, _, e1, _⟩ | ⟨e1, _⟩
       · exact h1
       · cases e1
+      · cases e1
     cases y
-    · obtain ⟨_, _, e⟩ := step_release_false h
-      subst e
-      exact ⟨ha.a1, fun id amt hm => ha.a2 id amt (hadd' id amt hm), ha.b1, fun id amt hm => ha.b2 id amt (hadd' id amt hm)⟩
-    · obtain ⟨_, _, e⟩ := step_release_true h
-      subst e
-      exact ⟨ha.a1, fun id amt hm => ha.a2 id amt (hadd' id amt hm), ha.b1, fun id amt hm => ha.b2 id amt (hadd' id amt hm)⟩
+    · obtain ⟨_, _, _, e⟩ := step_release_false h0
+      have hsa : s'.a = s.a := by rw [e]
+      have hsb : s'.b = s.b := by rw [e]
+      exact generic (by rw [hsa]; exact same _ _ _) (by rw [hsb]; exact same _ _ _) (by rw [hsa]) hadd'
+    · obtain ⟨_, _, _, e⟩ := step_release_true h0
+      have hsa : s'.a = s.a := by rw [e]
+      have hsb : s'.b = s.b := by rw [e]
+      exact generic (by rw [hsa]; exact same _ _ _) (by rw [hsb]; exact same _ _ _) (by rw [hsa]) hadd'
   | sendRaa y =>
     have hadd' : ∀ id amt, Msg.add id amt ∈ s'.fullAB → Msg.add id amt ∈ s.fullAB := by
       intro id amt hm
-      rcases hadd id amt hm with h1 | ⟨_, _, _, e1, _⟩
+      rcases hadd id amt hm with h1 | ⟨_, _, _, e1, _⟩ | ⟨e1, _⟩
       · exact h1
       · cases e1
+      · cases e1
     cases y
-    · obtain ⟨_, e⟩ := step_sendRaa_false h
-      subst e
-      exact ⟨ha.a1, fun id amt hm => ha.a2 id amt (hadd' id amt hm), ha.b1, fun id amt hm => ha.b2 id amt (hadd' id amt hm)⟩
-    · obtain ⟨_, e⟩ := step_sendRaa_true h
-      subst e
-      exact ⟨ha.a1, fun id amt hm => ha.a2 id amt (hadd' id amt hm), ha.b1, fun id amt hm => ha.b2 id amt (hadd' id amt hm)⟩
+    · obtain ⟨_, _, e⟩ := step_sendRaa_false h0
+      have hsa : s'.a = s.a := by rw [e]
+      have hsb : s'.b.inb = s.b.inb := by rw [e]
+      exact generic (by rw [hsa]; exact same _ _ _) (by rw [hsb]; exact same _ _ _) (by rw [hsa]) hadd'
+    · obtain ⟨_, _, e⟩ := step_sendRaa_true h0
+      have hsa : s'.a.outb = s.a.outb := by rw [e]
+      have hsb : s'.b = s.b := by rw [e]
+      exact generic (by rw [hsa]; exact same _ _ _) (by rw [hsb]; exact same _ _ _) (by rw [e]) hadd'
   | recv y =>
     have hadd' : ∀ id amt, Msg.add id amt ∈ s'.fullAB → Msg.add id amt ∈ s.fullAB := by
       intro id amt hm
-      rcases hadd id amt hm with h1 | ⟨_, _, _, e1, _⟩
+      rcases hadd id amt hm with h1 | ⟨_, _, _, e1, _⟩ | ⟨e1, _⟩
       · exact h1
       · cases e1
+      · cases e1
     cases y
-    · obtain ⟨m, rest, n, okb, hq, hm, e⟩ := step_recv_false h
-      subst e
+    · obtain ⟨m', rest', hq', hpa, hf⟩ := fullAB_recv_false hb h0
+      obtain ⟨_, m, rest, n, okb, hq, hm, e⟩ := step_recv_false h0
+      rw [hq'] at hq
+      injection hq with e1 e2
+      subst e1; subst e2
+      have hsa : s'.a = s.a := by rw [e]
+      have hsb : s'.b = n := by rw [e]
       obtain ⟨_, _, hin⟩ := onMsg_from hm
-      have hhead : m ∈ s.fullAB := by
-        show m ∈ full s.qab s.pendA s.needRaaA s.a.raaSent s.a.owesRaa
-        rw [hq, full_pop]; simp
-      refine ⟨?_, fun id amt hm => ha.a2 id amt (hadd' id amt hm), ?_, fun id amt hm => ha.b2 id amt (hadd' id amt hm)⟩
+      have hhead : m' ∈ s.fullAB := by rw [hf]; simp
+      refine ⟨?_, fun id amt hm => by rw [hsa]; exact ha.a2 id amt (hadd' id amt hm),
+        ?_, fun id amt hm => by rw [hsa]; exact ha.b2 id amt (hadd' id amt hm)⟩
       · intro x hx x' hx' hid
+        rw [hsa] at hx
+        rw [hsb] at hx'
         rcases hin x' hx' with ⟨y, hy, e1, e2⟩ | e1
         · rw [← e2]; exact ha.a1 x hx y hy (by omega)
         · rw [e1] at hhead
           exact ha.a2 _ _ hhead x hx hid
       · intro x' hx'
+        rw [hsb] at hx'
+        rw [hsa]
         rcases hin x' hx' with ⟨y, hy, e1, e2⟩ | e1
-        · have := ha.b1 y hy
-          show x'.id < s.a.nextOutId
-          omega
+        · have := ha.b1 y hy; omega
         · rw [e1] at hhead
           exact ha.b2 _ _ hhead
-    · obtain ⟨m, rest, n, okb, hq, hm, e⟩ := step_recv_true h
-      subst e
+    · obtain ⟨_, m, rest, n, okb, hq, hm, e⟩ := step_recv_true h0
+      have hsa : s'.a = n := by rw [e]
+      have hsb : s'.b = s.b := by rw [e]
       obtain ⟨hnext, hout, _⟩ := onMsg_from hm
-      refine ⟨?_, ?_, ?_, ?_⟩
-      · intro x hx x' hx' hid
-        obtain ⟨y, hy, e1, e2⟩ := hout x hx
-        rw [← e2]; exact ha.a1 y hy x' hx' (by omega)
-      · intro id amt hm' x hx hid
-        obtain ⟨y, hy, e1, e2⟩ := hout x hx
-        rw [← e2]; exact ha.a2 id amt (hadd' id amt hm') y hy (by omega)
-      · intro x' hx'
-        show x'.id < n.nextOutId
-        rw [hnext]; exact ha.b1 x' hx'
-      · intro id amt hm'
-        show id < n.nextOutId
-        rw [hnext]; exact ha.b2 id amt (hadd' id amt hm')
+      exact generic (by rw [hsa]; exact hout) (by rw [hsb]; exact same _ _ _) (by rw [hsa]; exact hnext) hadd'
+  | disconnect =>
+    have e := step_disconnect h0
+    have hsa : s'.a = s.a.pause := by rw [e]
+    have hsb : s'.b = s.b.pause := by rw [e]
+    have hnext : s'.a.nextOutId = s.a.nextOutId := by rw [hsa]; exact (pause_fields s.a).2.2.2.1
+    have hfa := (pause_from s.a).1
+    have hfb := (pause_from s.b).2
+    have hokp : NodeOK s.a.pause := hb.ok.pause hb.ra
+    refine ⟨?_, ?_, ?_, ?_⟩
+    · intro x hx x' hx' hid
+      rw [hsa] at hx
+      rw [hsb] at hx'
+      obtain ⟨y, hy, e1, e2⟩ := hfa x hx
+      rw [← e2]; exact ha.a1 y hy x' (hfb x' hx') (by omega)
+    · intro id amt hm x hx hid
+      rw [hsa] at hx
+      rcases hadd id amt hm with h1 | ⟨_, _, _, e1, _⟩ | ⟨_, h1⟩
+      · obtain ⟨y, hy, e1, e2⟩ := hfa x hx
+        rw [← e2]; exact ha.a2 id amt h1 y hy (by omega)
+      · cases e1
+      · obtain ⟨z, hz, e1, e2⟩ := add_mem_lastBatch h1
+        have : x = z := sorted_unique hokp.sOut hx hz (by show x.id = z.id; omega)
+        rw [this]; exact e2
+    · intro x' hx'
+      rw [hsb] at hx'
+      rw [hnext]; exact ha.b1 x' (hfb x' hx')
+    · intro id amt hm
+      rw [hnext]
+      rcases hadd id amt hm with h1 | ⟨_, _, _, e1, _⟩ | ⟨_, h1⟩
+      · exact ha.b2 id amt h1
+      · cases e1
+      · obtain ⟨z, hz, e1, _⟩ := add_mem_lastBatch h1
+        have := hokp.bOut z hz
+        rw [(pause_fields s.a).2.2.2.1] at this
+        omega
+  | reest y =>
+    have hadd' : ∀ id amt, Msg.add id amt ∈ s'.fullAB → Msg.add id amt ∈ s.fullAB := by
+      intro id amt hm
+      rcases hadd id amt hm with h1 | ⟨_, _, _, e1, _⟩ | ⟨e1, _⟩
+      · exact h1
+      · cases e1
+      · cases e1
+    cases y
+    · obtain ⟨n, p, hr, e⟩ := step_reest_false h0
+      obtain ⟨_, _, _, _, _, en, _⟩ := reestablish_some hr
+      have hsa : s'.a = s.a := by rw [e]
+      have hsb : s'.b.inb = s.b.inb := by rw [e, en]
+      exact generic (by rw [hsa]; exact same _ _ _) (by rw [hsb]; exact same _ _ _) (by rw [hsa]) hadd'
+    · obtain ⟨n, p, hr, e⟩ := step_reest_true h0
+      obtain ⟨_, _, _, _, _, en, _⟩ := reestablish_some hr
+      have hsa : s'.a.outb = s.a.outb := by rw [e, en]
+      have hsb : s'.b = s.b := by rw [e]
+      exact generic (by rw [hsa]; exact same _ _ _) (by rw [hsb]; exact same _ _ _) (by rw [e, en]) hadd'
 
 end Ldk.Chan
